@@ -106,6 +106,24 @@ pub fn run(ctx: &Ctx) -> i32 {
             check_case(ctx, st, tcs, Settings::new(f | extra[i / look.len()]));
         });
     }
+    // >= 32 test cases with literal text resembling the class token; long test cases over many symbols
+    {
+        let many = gen::many_lookalike_cases();
+        let extra = [0, REP, CAP, ESC];
+        par_for(&ctx.run, many.len() * extra.len(), |i, st| {
+            let (tcs, f) = &many[i % many.len()];
+            st.count("many_lookalike_cases");
+            check_case(ctx, st, tcs, Settings::new(f | extra[i / many.len()]));
+        });
+        let n = if ctx.thorough { 3000 } else { 160 };
+        let flags = [DIGIT, WORD, SPACE, NDIGIT, NWORD, NSPACE, DIGIT | NWORD, WORD | SPACE, DIGIT | WORD | SPACE, 63, CI | DIGIT, CAP | SPACE];
+        par_for(&ctx.run, n, |i, st| {
+            let mut rng = Rng::new(seed, 0x31_0000 + i as u64);
+            let tcs = gen::wide_case(&mut rng);
+            st.count("wide_cases_many_symbols");
+            check_case(ctx, st, &tcs, Settings::new(flags[i % flags.len()]));
+        });
+    }
     // random
     let n = if ctx.thorough { 150_000 } else { 5_000 };
     let names = ["classes", "ws", "case", "graph", "mixed", "astral", "meta", "clusters", "tokens"];
